@@ -10,7 +10,8 @@
 (*   ReadNum   the per-read mixture numerator SUM_h PROD_j Cell(r,j,hap_h[j])*)
 (*             for reads whose cells are gaps or calls with P(correct)=7/8   *)
 (*             (cell values 21/24, 1/24, gap = 24/24).                       *)
-(* All arithmetic is exact (BigNat limbs).                                   *)
+(* All arithmetic is exact (BigNat limbs).  The definitions (instance       *)
+(* families, prior weights, read numerators, JBig) are in common/CallModel.  *)
 (*                                                                           *)
 (* State machine = the steps of the code: an instance is built (Pick,        *)
 (* AddRead, Start), then the *streaming* path runs: pass 1 (running total    *)
@@ -19,7 +20,7 @@
 (* occurrence accumulators).  The *array* path is a function of the complete *)
 (* table `jtab` (declarative).  Invariants relate both to the declarative    *)
 (* definition over the set of all sorted tuples.                             *)
-EXTENDS Integers, Sequences, FiniteSets, TLC, Json, BigNat, Genotypes
+EXTENDS Integers, Sequences, FiniteSets, TLC, Json, CallModel
 
 CONSTANTS Ploidies,     \* set of ploidies
           Menus,        \* set of haplotype-menu names
@@ -28,97 +29,6 @@ CONSTANTS Ploidies,     \* set of ploidies
           MaxReads,     \* function menu -> max number of distinct reads
           Counts,       \* set of read counts
           Mut           \* "none" or the name of a seeded model mutation
-
-(* ---- instance families (DESIGN 2.5) ------------------------------------- *)
-AllMenus == {"K1N0", "K2N1", "K3N1", "K3N2", "K4N2", "K2N3", "K4N3"}
-Hap(m) == CASE m = "K1N0" -> << <<>> >>
-            [] m = "K2N1" -> << <<0>>, <<1>> >>
-            [] m = "K3N1" -> << <<0>>, <<1>>, <<2>> >>
-            [] m = "K3N2" -> << <<0,0>>, <<0,1>>, <<1,1>> >>
-            [] m = "K4N2" -> << <<0,0>>, <<0,1>>, <<1,0>>, <<1,1>> >>
-            [] m = "K2N3" -> << <<0,0,0>>, <<1,1,1>> >>
-            [] m = "K4N3" -> << <<0,0,0>>, <<0,1,1>>, <<1,1,0>>, <<1,0,2>> >>
-
-NHap(m) == Len(Hap(m))
-NSnv(m) == Len(Hap(m)[1])
-MaxOf(S) == CHOOSE x \in S : \A y \in S : y <= x
-NAll(m) == [j \in 1..NSnv(m) |-> 1 + MaxOf({Hap(m)[k][j] : k \in 1..NHap(m)})]
-
-(* read alphabet: a read is a vector of cells, -1 = gap, a >= 0 = call of    *)
-(* SNV allele a.  Full alphabet for N <= 2, a curated menu for N = 3.        *)
-FullReads(m) == LET A == NAll(m) IN {c \in [1..NSnv(m) -> -1..2] : \A j \in 1..NSnv(m) : c[j] < A[j]}
-ReadAlphabet(m) ==
-  CASE m = "K2N3" -> {<<0,0,0>>, <<1,1,1>>, <<0,1,-1>>, <<-1,-1,1>>, <<1,0,0>>, <<-1,-1,-1>>}
-    [] m = "K4N3" -> {<<0,0,0>>, <<0,1,1>>, <<1,1,0>>, <<1,0,2>>, <<-1,1,-1>>, <<1,-1,2>>, <<0,0,2>>, <<-1,-1,-1>>}
-    [] OTHER -> FullReads(m)
-
-RECURSIVE CodeFrom(_, _)
-CodeFrom(c, j) == IF j = 0 THEN 0 ELSE (c[j] + 1) + 4 * CodeFrom(c, j - 1)
-Code(c) == CodeFrom(c, Len(c))          \* total order on cell vectors
-
-(* frequency patterns as integer weights, f_i = w_i / SUM w                  *)
-Weights(pat, K) ==
-  CASE pat = "flat"     -> [i \in 1..K |-> 1]
-    [] pat = "skew"     -> [i \in 1..K |-> i]
-    [] pat = "dom"      -> [i \in 1..K |-> IF i = 1 THEN 3 ELSE 1]
-    [] pat = "lastzero" -> [i \in 1..K |-> IF i = K THEN 0 ELSE IF i = 1 THEN 2 ELSE 1]
-    [] pat = "refzero"  -> [i \in 1..K |-> IF i = 1 THEN 0 ELSE 1]
-PatternOK(pat, K) == pat \in {"lastzero", "refzero"} => K >= 2
-
-RECURSIVE SumSeq(_, _)
-SumSeq(s, n) == IF n = 0 THEN 0 ELSE s[n] + SumSeq(s, n - 1)
-
-(* ---- prior: Dirichlet-multinomial integer weights ------------------------ *)
-(* F = Fn/Fd;  alpha_i = f_i (1-F)/F = w_i (Fd-Fn) / (d Fn) = a_i / D           *)
-AlphaNum(i) == [k \in 1..Len(i.w) |-> i.w[k] * (i.Fd - i.Fn)]
-AlphaDen(i) == SumSeq(i.w, Len(i.w)) * i.Fn
-CountBefore(v, h) == Cardinality({x \in 1..(h - 1) : v[x] = v[h]})
-(* Polya-urn factors of an allele vector in the given order (F > 0), or the  *)
-(* independent-draw factors (F = 0); the common denominator is               *)
-(* PROD_{k<P} (A + k D)  resp.  d^P  and cancels in the posterior.           *)
-UrnFactors(i, v) ==
-  IF i.Fn = 0 THEN [h \in 1..Len(v) |-> i.w[v[h] + 1]]
-  ELSE LET a == AlphaNum(i)  D == AlphaDen(i)
-       IN  [h \in 1..Len(v) |-> a[v[h] + 1] + CountBefore(v, h) * D]
-PriorNormFactors(i) ==
-  IF i.Fn = 0 THEN [h \in 1..i.P |-> SumSeq(i.w, Len(i.w))]
-  ELSE LET a == AlphaNum(i)  D == AlphaDen(i)  A == SumSeq(a, Len(a))
-       IN  [h \in 1..i.P |-> A + (h - 1) * D]
-
-(* ---- likelihood: per-read mixture numerators ----------------------------- *)
-Cell(c, x) == IF c = -1 THEN 24 ELSE IF c = x THEN 21 ELSE 1
-RECURSIVE ProdCells(_, _, _)
-ProdCells(cells, hap, j) == IF j = 0 THEN 1 ELSE Cell(cells[j], hap[j]) * ProdCells(cells, hap, j - 1)
-RECURSIVE SumHaps(_, _, _, _)
-SumHaps(cells, H, G, h) ==
-  IF h = 0 THEN 0 ELSE ProdCells(cells, H[G[h] + 1], Len(cells)) + SumHaps(cells, H, G, h - 1)
-ReadNum(i, r, G) == SumHaps(i.reads[r].cells, i.H, G, Len(G))    \* over P * 24^N
-
-RECURSIVE Repeat(_, _)
-Repeat(x, n) == IF n = 0 THEN <<>> ELSE <<x>> \o Repeat(x, n - 1)
-RECURSIVE ReadFactorsFrom(_, _, _)
-ReadFactorsFrom(i, G, r) ==
-  IF r = 0 THEN <<>> ELSE ReadFactorsFrom(i, G, r - 1) \o Repeat(ReadNum(i, r, G), i.reads[r].cnt)
-ReadFactors(i, G) == ReadFactorsFrom(i, G, Len(i.reads))
-
-RECURSIVE MulAll(_, _)
-MulAll(acc, fs) ==
-  IF fs = <<>> THEN acc
-  ELSE MulAll(IF Head(fs) <= 100000 THEN BnMulSmall(acc, Head(fs)) ELSE BnMul(acc, BnFromNat(Head(fs))), Tail(fs))
-
-LBig(i, G) == MulAll(<<1>>, ReadFactors(i, G))                               \* likelihood numerator
-WFactors(i, G) == <<Perms(G)>> \o UrnFactors(i, G)                           \* prior weight W(G), G sorted
-JBig(i, G) == MulAll(<<1>>, WFactors(i, G) \o ReadFactors(i, G))             \* joint numerator
-
-(* ---- declarative genotype space ------------------------------------------ *)
-AllSorted(P, K) == {v \in [1..P -> 0..(K - 1)] : IsSorted(v)}
-AlleleSet(G) == {G[h] : h \in 1..Len(G)}
-NGen(P, K) == Choose(K + P - 1, P)
-
-RECURSIVE BnSumSet(_, _, _)
-BnSumSet(i, S, acc) ==
-  IF S = {} THEN acc
-  ELSE LET G == CHOOSE x \in S : TRUE IN BnSumSet(i, S \ {G}, BnAdd(acc, JBig(i, G)))
 
 (* ---- state ---------------------------------------------------------------- *)
 VARIABLES phase,    \* "root" "build" "pass1" "support" "pass2" "done"
